@@ -108,6 +108,9 @@ def line(req):
         return real_r7.chain_line(req)
     if op == 'cacheid':
         return 'cacheid identity ' + (','.join(req[2]) or '_')
+    if op in ('readsig', 'stext', 'pieces'):
+        from . import real_r8
+        return real_r8.line(req)
     if op == 'stream-timeout':
         return 'stream-timeout %s' % (req[1],)
     raise core.HarnessError('unknown op %r' % (op,))
@@ -185,6 +188,9 @@ def parse_model(req, ml):
         return real_r7.parse_chain(ml)
     if op == 'cacheid':
         return ('ok', toks[0])
+    if op in ('readsig', 'stext', 'pieces'):
+        from . import real_r8
+        return real_r8.parse_model(req, ml)
     return core.parse_model_answer(ml)
 
 
@@ -317,6 +323,9 @@ def _real(req, plain, mk, disturb=False):
     from . import real_r7
     if op in real_r7.OPS:
         return real_r7.OPS[op](req)
+    from . import real_r8
+    if op in real_r8.OPS:
+        return real_r8.OPS[op](req)
     raise core.HarnessError('unknown op %r' % (op,))
 
 
